@@ -675,6 +675,14 @@ func (m *collection) appendChildLLSnapshot(dst *segmentStack,
 		if src != nil {
 			childSnap, _ = src.ChildCollectionSnapshot(cName)
 		}
+		if childFooter, ok := childSnap.(*Footer); ok && childFooter != nil &&
+			childFooter.incarNum != childCollection.incarNum {
+			// The persisted child collection of that name is a previous
+			// incarnation, deleted (and recreated) since it was persisted:
+			// its entries must not show up in the current incarnation.
+			childFooter.Close()
+			childSnap = nil
+		}
 
 		dst.childSegStacks[cName] =
 			childCollection.appendChildLLSnapshot(dstChildStack, childSnap)
